@@ -34,6 +34,8 @@ def check(ctx, R):
     T = terms(ctx)
     _sync(ctx, R, T)
     _async(ctx, R, T)
+    from .c12 import _transport_close
+    _transport_close(ctx, R, only=("transport.tcp_transport.TcpTransport", "transport.tcp_transport_async.TcpTransportAsync"))   # close is idempotent, a closed transport can connect again
     R.assume("select.select / socket.recv / asyncio streams / async_timeout behave as documented")
     R.undecided("wall-clock lower bounds, OS-level fragmentation and whole loopback sessions are outside the source")
 
